@@ -12,6 +12,7 @@ EXPLANATION = (
     "(3) every CsrSegment literal with no edges still has sentinel reverse offsets (an empty `in_offsets` makes incoming_neighbors index out of bounds). "
     "It does not decide equality of reads before/after compaction."
     " C05.6: build_segment_from_runs grows its tombstone sets per run, inside the loop and before that run's edges are filtered."
+    " C05.7: every node-property read in WriteTxn::commit (old values for index maintenance) resolves to a reader that reaches the property store, so the result does not depend on whether a compaction has sunk the value."
 )
 
 L0RUN = "nervusdb_storage::snapshot::L0Run"
@@ -66,6 +67,7 @@ def is_vec_new(b, op):
 
 
 def run(ctx):
+    commit_reads_store_rule(ctx)
     F = ctx.facts
     ctx.rule("C05.1", "compact's call closure reads every data field of L0Run and reaches BTree::delete")
     ctx.rule("C05.2", "deleted-node set of a snapshot derives from persisted state; segment builder sees older segments or CsrSegment carries tombstones")
@@ -302,3 +304,30 @@ def run(ctx):
         ctx.oblige(ok, "C05.6", "build_segment_from_runs:%s-not-per-run" % what,
                    "the segment builder does not apply %s run by run (%s): a tombstone of an older run also removes a newer re-creation of the same key, "
                    "so a relationship deleted and later re-created disappears at the next compaction" % (what.replace("iter_", ""), why or "missing"), sb.file)
+
+
+STORE_READER = "nervusdb_storage::read_path_property_store::read_node_property_from_store"
+
+
+def commit_reads_store_rule(ctx, rid="C05.7"):
+    """commit-time index maintenance reads the old property value through a reader that falls back to the property store (where compaction puts it)"""
+    from .. import model as M
+    F = ctx.facts
+    ctx.rule(rid, "every node-property read in WriteTxn::commit (the old value whose index entry must be deleted) resolves to a reader that reaches the property "
+             "store: after a compaction the value lives only there, and a run-only view leaves the stale index entry in place")
+    b = ctx.body(M.COMMIT)
+    ctx.body(STORE_READER)
+    bodies = [b] + list(F.closures_of(M.COMMIT))
+    n = 0
+    for x in bodies:
+        for c in x.calls():
+            if not (c.name.endswith("::node_property") or c.declared.endswith("::node_property")):
+                continue
+            n += 1
+            tg = F.call_targets(c)
+            ok = bool(tg) and all(F.reaches(t, {STORE_READER}) for t in tg)
+            ctx.instance(rid, "commit: %s -> %s reaches the property store=%s" % (c.loc(), [t.split(" as ")[0][-40:] for t in tg][:2], ok))
+            ctx.oblige(ok, rid, "%s:commit:node_property#%d:run-only-view" % (rid, c.ordinal),
+                       "commit reads the current property value through %s, which does not consult the property store: once a compaction has sunk the value "
+                       "there the old index entry is never deleted (lookups return the node for a value it no longer has, or twice)" % (tg[:1] or [c.name]), c.loc())
+    ctx.floor(rid, "node-property reads in commit", n, 2)
